@@ -20,4 +20,7 @@ TEXTS = {
     "C09": {"technique": "runtime monitoring: online trace-specification check of every router decision (hooked _create_router/_send_inner/route_handler) + marker call logs vs. a reference chain-of-responsibility interpreter; exhaustive over short recipes",
             "level": "exploration (exhaustive for recipes of length <= 2 quick / <= 3 thorough over a 48-provider alphabet, random beyond): " + _EXPL,
             "note": "the monitor hooks internals from the harness; a zero route count makes the run inconclusive"},
+    "C10": {"technique": "runtime monitoring: exhaustive truth-table comparison of create_loc_stack_checker(pred).check_loc_stack with a reference predicate evaluator + marker-loader integration leg",
+            "level": "exploration, exhaustive inside the stated universe (atoms x expressions of nesting <= 1/2 x stacks of depth <= 2/3), sampled beyond: " + _EXPL,
+            "note": "the tutorial's example P[Foo].name[Bar].age contradicts the tail rule of the property statement (see DESIGN.md); the statement's rule is the oracle"},
 }
